@@ -619,3 +619,51 @@ Proof.
 Qed.
 End LsG.
 End Guarded.
+
+(* ========== binary64: the run-time predicate implies exact scale covariance ========== *)
+Lemma nn_greedy_scale_f64_lemma : forall k signal response off la,
+  nn_safe k signal response off la = true ->
+  nn_greedy_f (map (fscale k) signal) response off la =
+  res_map (sc_out flt (fscale k) (fscale2 k)) (nn_greedy_f signal response off la).
+Proof.
+  intros k signal response off la. unfold nn_safe. rewrite andb_true_iff. intros [Hk H]. apply Z.leb_le in Hk.
+  unfold nn_greedy_f.
+  apply (nn_greedy_scale_g flt 0%float neg_zero PrimFloat.add PrimFloat.sub PrimFloat.mul PrimFloat.div f_min f_neg f_nonneg
+           (okv (Z.abs k)) (f_ok_sub (Z.abs k)) (f_ok_mul (Z.abs k)) (f_ok_div (Z.abs k)) (f_ok_sq k) (f_ok_add (2 * Z.abs k))
+           (fscale k) (fscale2 k)).
+  - exact (law_zero k Hk).
+  - exact (law_sub k Hk).
+  - exact (law_mul k Hk).
+  - exact (law_div k Hk).
+  - exact (law_min k Hk).
+  - exact (law_nonneg k Hk).
+  - exact (law_sq k Hk).
+  - exact (law_add2 k Hk).
+  - exact (law_szero k Hk).
+  - exact H.
+Qed.
+
+Lemma ls_deconv_scale_f64_lemma : forall k signal response offs las,
+  ls_safe k signal response offs las = true ->
+  ls_deconv_f (map (fscale k) signal) response offs las =
+  res_map (map (fscale k)) (ls_deconv_f signal response offs las).
+Proof.
+  intros k signal response offs las. unfold ls_safe. rewrite andb_true_iff. intros [Hk H]. apply Z.leb_le in Hk.
+  unfold ls_deconv_f, nn_greedy_f.
+  apply (ls_deconv_scale_g flt 0%float neg_zero infinity PrimFloat.add PrimFloat.sub PrimFloat.mul PrimFloat.div f_min f_neg f_nonneg
+           PrimFloat.ltb
+           (okv (Z.abs k)) (f_ok_sub (Z.abs k)) (f_ok_mul (Z.abs k)) (f_ok_div (Z.abs k)) (f_ok_sq k) (f_ok_add (2 * Z.abs k))
+           (f_ok_lt2 (2 * Z.abs k)) (fscale k) (fscale2 k)).
+  - exact (law_zero k Hk).
+  - exact (law_sub k Hk).
+  - exact (law_mul k Hk).
+  - exact (law_div k Hk).
+  - exact (law_min k Hk).
+  - exact (law_nonneg k Hk).
+  - exact (law_sq k Hk).
+  - exact (law_add2 k Hk).
+  - exact (law_szero k Hk).
+  - exact (law_lt2 k Hk).
+  - exact (law_inf k Hk).
+  - exact H.
+Qed.
